@@ -10,8 +10,9 @@ OBLIGATIONS = [
     'C02.outer_is_grade_sum', 'C02.inner_is_grade_absdiff', 'C02.inner_scalar_left', 'C02.inner_scalar_right',
     'C02.lc_is_grade_diff', 'C02.lc_zero_of_gt', 'C02.add_left', 'C02.add_right', 'C02.smul_left', 'C02.smul_right',
     'C02.outer_signature_independent', 'C02.outer_assoc', 'C02.outer_alternating', 'C02.grade_xor', 'C02.gradedMt_mem',
+    'C02.graded_table_contraction_is_mmul',
 ]
-PENDING = ['storage-level bridge: the executable masked table contraction equals `mmul` conjugated by the storage order (shared with C01/C03)']
+PENDING = []
 RULE = ("layouts as in C01 (exhaustive small signatures, random larger ones, custom ids/orders); per layout every grade pair (r,s) "
         "with random homogeneous integer operands, plus mixed-grade operands; non-trivial = both operands non-zero; "
         "distinct = distinct (layout, operands, operator) text")
